@@ -259,7 +259,7 @@ def showCState (st : List ((String × Int) × CState)) : String :=
     | .err e => s!"{t}/{p}=E{e}"
     | .val o m => s!"{t}/{p}={o}~{m}")))
 
-def ofetchRef (st : List ((String × Int) × CState)) (req : String) : Option String := do
+def ofetchRef (st : List ((String × Int) × CState)) (req : String) (ver : Int := 5) : Option String := do
   -- "nil" / "empty" user map = all topics of the group (a NULL topics array on the wire): every partition the
   -- group has committed, by topic and ascending partition
   let allTs : List (String × List Int) :=
@@ -279,7 +279,8 @@ def ofetchRef (st : List ((String × Int) × CState)) (req : String) : Option St
       | some (_, .err e) => s!"{p}/-1//{e}"
       | some (_, .val o m) => s!"{p}/{o}/{m}/0"
       | none => s!"{p}/-1//0")
-  pure s!"{groupErr.getD 0};{"|".intercalate body}"
+  -- OffsetFetch has a top-level error code from v2 on; before, a group-level failure is reported on every partition only
+  pure s!"{if ver ≥ 2 then groupErr.getD 0 else 0};{"|".intercalate body}"
 
 def knownTopics : List String := ["a", "b", "c", "d", "e", "ab"]
 
@@ -539,6 +540,10 @@ def step (line : String) : String :=
       | _, _, _, _, _ => "bad-op"
     | ["ofetch", st, r] =>
       match (parseCState st).bind (ofetchRef · r) with
+      | some want => answer want (impl == want)
+      | none => "bad-op"
+    | ["ofetch", st, r, v] =>
+      match ((v.drop 2).toString.toInt?).bind fun v => (parseCState st).bind (ofetchRef · r v) with
       | some want => answer want (impl == want)
       | none => "bad-op"
     | ["ocommit", st, r] =>
